@@ -229,6 +229,26 @@ def workload(tier, seed, scale=1.0):
             for sv in svals:
                 cmds.append(cmd_sf('C02', 'mul', ty, a, sv, 'U', cell=('sf', 'mul', ty, n, sv.bit_length())))
                 cmds.append(cmd_sf('C02', 'mul', ty, -a, sv, 'I', cell=('sf', 'mulI', ty, n, sv.bit_length())))
+    # short multipliers (1..3 digits) built from a carry-prone digit alphabet against longer operands from the same alphabet:
+    # a dedicated few-digit fast path has its own carry bookkeeping that random digits never stress
+    alpha = [0, 1, 2, 3, M64, M64 - 1, M64 - 2, 1 << 63, (1 << 63) + 1, (1 << 63) - 1, 1 << 32, (1 << 32) - 1, 0xffffffff00000000, 0x5555555555555555, 0xaaaaaaaaaaaaaaaa]
+    shorts = [(a,) for a in alpha if a] + [(a, b) for a in alpha for b in alpha if b] + [tuple(rnd.choice(alpha) for _ in range(2)) + (rnd.choice(alpha[1:]),) for _ in range(60)]
+    for ds in shorts:
+        if scale < 1.0 and rnd.random() > scale:
+            continue
+        x = sum(d << (64 * i) for i, d in enumerate(ds))
+        for _ in range(1 if tier == 'quick' else 3):
+            ly = rnd.choice((2, 3, 4, 5, 6, 9, 17, 33, 40))
+            yd = [rnd.choice(alpha) for _ in range(ly)]
+            yd[-1] = yd[-1] or 1
+            y = sum(d << (64 * i) for i, d in enumerate(yd))
+            if rnd.random() < 0.5:
+                cmds.append(cmd_mulv(x, y, 'alpha-short', 'U'))
+            else:
+                cmds.append(cmd_mulv(-x, y * rnd.choice((1, -1)), 'alpha-short', 'I'))
+            if len(ds) == 2 and rnd.random() < 0.3:
+                sv = x
+                cmds.append(cmd_sf('C02', 'mul', 'u128', y, sv, 'U', cell=('sf-alpha', 'u128', ly)))
     # every scalar type at its extremes (MIN, MIN+1, MAX, 2^k +- 1) through every form incl. the compound-assignment ones
     from ..arith import UTYPES, ITYPES, scalar_extremes
     for ty in UTYPES + ITYPES:
